@@ -72,6 +72,6 @@ def run(tier, seed):
 
 def replay(path):
     r = json.load(open(path))
-    R = pipeline.replay_and_validate("C05/replay", r["init"], [(r["hist"], r.get("from", 1))], shards=1)
+    R = pipeline.replay_and_validate("C05/replay", r["init"], [(r["hist"], r.get("from", 1), r.get("tid", 1))], shards=1, seed=r.get("seed", 0))
     print(json.dumps(R["sample"]["steps"][-1], indent=1)[:4000])
     return {"fails": R["fails"], "init": r["init"], "evidence": None}
